@@ -440,9 +440,9 @@ def wfVal : Val → Bool
   | .nint n => decide (n < 9223372036854775808)
   | .bytes b => decide (b.length ≤ maxStrLen)
   | .text b => decide (b.length ≤ maxStrLen)
-  | .array xs => wfValList xs
-  | .map kvs => !hasDupKey kvs && wfValKVs kvs
-  | .link c => validCid c
+  | .array xs => decide (xs.length < 18446744073709551616) && wfValList xs
+  | .map kvs => decide (kvs.length < 18446744073709551616) && !hasDupKey kvs && wfValKVs kvs
+  | .link c => validCid c && decide (c.length < maxStrLen)
   | .bool _ => true
   | .null => true
   | .float bits => decide (bits < 18446744073709551616) && finiteF64 bits
